@@ -85,13 +85,11 @@ def load_table(name):
         return json.load(fh)
 
 
-def run(prop, tier, rules, meta, repo="/repo"):
-    """rules: list of callables rule(ctx, report). meta: dict with explanation etc."""
-    t0 = time.time()
-    seed = int(os.environ.get("VERIF_SEED", "0") or 0)
+def evaluate(prop, tier, rules, repo, configs=None):
+    """Run the rules of one property over one tree; returns (report, ctx, unlisted violations, kf_present, audited_used)."""
     rep = Report(prop, tier)
     ctx = Ctx(repo, tier)
-    for cfg in ctx.all_configs():
+    for cfg in (configs or ctx.all_configs()):
         ctx.current = cfg
         before = len(rep.instances)
         for rule in rules:
@@ -127,7 +125,6 @@ def run(prop, tier, rules, meta, repo="/repo"):
         for k in f.get("site_keys", []):
             kf_by_key[k] = f
     audited_by_key = {a["key"]: a for a in audited.get("sites", [])}
-
     violations = []
     kf_present = {}
     audited_used = []
@@ -144,6 +141,28 @@ def run(prop, tier, rules, meta, repo="/repo"):
             audited_used.append(inst["key"])
         else:
             violations.append(inst)
+    return rep, ctx, violations, kf_present, audited_used
+
+
+def run(prop, tier, rules, meta, repo="/repo"):
+    """rules: list of callables rule(ctx, report). meta: dict with explanation etc."""
+    t0 = time.time()
+    seed = int(os.environ.get("VERIF_SEED", "0") or 0)
+    rep, ctx, violations, kf_present, audited_used = evaluate(prop, tier, rules, repo)
+    selftest = None
+    if tier == "thorough" and not violations and not os.environ.get("VERIF_NO_SELFTEST"):
+        from . import selftest as st
+
+        def run_rules(d):
+            # rule modules memoise per fact object, so a fresh evaluation on another tree is independent
+            _, _, v, _, _ = evaluate(prop, "quick", rules, d, configs=["dates"] if prop == "C11" else ["default"])
+            return v
+        selftest = st.run(prop, rules, repo, run_rules)
+        print("self-validation on scratch copies: %d patch(es) applied, %d reported, %d skipped (do not apply to this tree), %d missed%s" % (
+            selftest["applied"], selftest["detected"], len(selftest["skipped"]), len(selftest["missed"]),
+            (": " + ", ".join(selftest["missed"])) if selftest["missed"] else ""))
+        for m in selftest["missed"]:
+            print("SELFTEST-MISS property=%s patch=%s (the check no longer reports a change it is recorded to report; this is about the checker, not the analysed tree)" % (prop, m))
 
     for fid, f in sorted(kf_present.items()):
         print("KNOWN-FINDING: property=%s %s [%s] %s" % (prop, fid, f.get("rule", ""), f["what_fails"]))
@@ -195,6 +214,7 @@ def run(prop, tier, rules, meta, repo="/repo"):
             "trusted_base": ["rustc nightly HIR/MIR construction and trait resolution", "calamir serialisation of HIR/MIR", "dependencies of calamine are not analysed"],
             "exhaustive": True,
             "extract_s": round(ctx.extract_s, 2),
+            "selftest": selftest,
         },
         "assumptions": meta.get("assumptions", []),
         "wall_s": round(wall, 2),
